@@ -14,6 +14,10 @@ theorem sliceToI_ok (p : Bytes) (pad : Nat) (h : pad ≤ p.length) :
   have h2 : ((p.length : Int) - (pad : Int)).toNat = p.length - pad := by omega
   simp only [h1, and_self, if_true, h2]
 
+theorem sliceToI_full (p : Bytes) : sliceToI p (p.length : Int) = some p := by
+  have := sliceToI_ok p 0 (by omega)
+  simpa using this
+
 theorem readByte_ok (p : Bytes) : Checked.readByte p = some (readByte p) := by
   cases p with
   | nil => rfl
@@ -38,7 +42,7 @@ theorem parseData_ok (fh : FH) (p : Bytes) : Checked.parseData fh p = some (pars
         by_cases hb : pad > q.length
         · simp [hb]
         · simp [hb, sliceToI_ok q pad (by omega)]
-    · simp [hf, sliceToI_ok p 0 (by omega)]
+    · simp [hf, sliceToI_full]
 
 theorem parsePushPromise_ok (fh : FH) (p : Bytes) : Checked.parsePushPromise fh p = some (parsePushPromise fh p) := by
   unfold Checked.parsePushPromise parsePushPromise
@@ -135,10 +139,12 @@ theorem parseHeaders_ok (fh : FH) (p : Bytes) : Checked.parseHeaders fh p = some
       · simp only [hg, Bool.false_eq_true, if_false, Option.bind_eq_bind, Option.bind_some]
         exact fin q pad _
     rcases Bool.eq_false_or_eq_true (hasFlag fh.flags 8) with hf | hf
-    · simp only [hf, if_true, readByte_ok, Option.bind_eq_bind, Option.bind_some]
+    · simp only [hf, if_true]
+      rw [readByte_ok p]
+      simp only [Option.bind_eq_bind, Option.bind_some]
       cases hr : readByte p with
       | error e => simp
-      | ok x => obtain ⟨q, pad⟩ := x; exact key q pad
+      | ok x => obtain ⟨q, pad⟩ := x; simp only []; exact key q pad
     · simp only [hf, Bool.false_eq_true, if_false, Option.bind_eq_bind, Option.bind_some]
       exact key p 0
 
@@ -169,6 +175,10 @@ theorem parsePriority_ok (fh : FH) (p : Bytes) : Checked.parsePriority fh p = so
       simp [Checked.parsePriority, parsePriority, hs]
     | [a, b, c, d, w] => simp [Checked.parsePriority, parsePriority, hs, sliceTo, u32, idx]
 
+theorem pwu4' (fh : FH) (a b c d : Nat) :
+    parseWindowUpdate fh [a, b, c, d] = Checked.wuResult fh (low31 (be32 a b c d)) := by
+  simp only [parseWindowUpdate, Checked.wuResult]
+
 theorem parseWindowUpdate_ok (fh : FH) (p : Bytes) :
     Checked.parseWindowUpdate fh p = some (parseWindowUpdate fh p) := by
   by_cases h4 : p.length = 4
@@ -178,15 +188,8 @@ theorem parseWindowUpdate_ok (fh : FH) (p : Bytes) :
     have e1 : sliceTo [a, b, c, d] 4 = some [a, b, c, d] := rfl
     have e2 : u32 [a, b, c, d] = some (be32 a b c d) := rfl
     have e0 : (([a, b, c, d] : Bytes).length != 4) = false := rfl
-    refine Eq.trans ?_ (congrArg some (pwu4 fh a b c d).symm)
-    unfold Checked.parseWindowUpdate
-    simp only [e0, Bool.false_eq_true, if_false, e1, e2, Option.bind_eq_bind, Option.bind_some]
-    generalize low31 (be32 a b c d) = inc
-    by_cases hi : (inc == 0) = true
-    · by_cases hs : (fh.sid == 0) = true
-      · simp only [hi, hs, if_true]; rfl
-      · simp only [hi, hs, if_true, if_false]; rfl
-    · simp only [hi, if_false]; rfl
+    refine Eq.trans ?_ (congrArg some (pwu4' fh a b c d).symm)
+    simp only [Checked.parseWindowUpdate, e0, Bool.false_eq_true, if_false, e1, e2]
   · have hparse : parseWindowUpdate fh p = .error (.conn cFrameSize) := by
       unfold parseWindowUpdate
       split
@@ -232,6 +235,7 @@ theorem valueLoop_ok (id : Nat) : ∀ (n : Nat) (buf : Bytes) (fuel : Nat), buf.
         · simp [hid]
         · have hid' : (a * 256 + b == id) = false := by simpa using hid
           simp [hid', ihr]
+          intro h; exact absurd h hid
 
 theorem validLoop_ok : ∀ (n : Nat) (buf : Bytes) (fuel : Nat), buf.length = 6 * n → fuel > buf.length →
     Checked.validLoop fuel buf = some (settingsValid (settingsOf buf)) := by
@@ -276,18 +280,104 @@ theorem parseSettings_ok (fh : FH) (p : Bytes) : Checked.parseSettings fh p = so
         | some v => simp only []; split <;> rfl
 
 theorem parseFrame_ok (fh : FH) (p : Bytes) : Checked.parseFrame fh p = some (parseFrame fh p) := by
-  unfold Checked.parseFrame parseFrame
-  split
-  · exact parseData_ok fh p
-  · exact parseHeaders_ok fh p
-  · exact parsePriority_ok fh p
-  · exact parseRST_ok fh p
-  · exact parseSettings_ok fh p
-  · exact parsePushPromise_ok fh p
-  · exact parsePing_ok fh p
-  · exact parseGoAway_ok fh p
-  · exact parseWindowUpdate_ok fh p
-  · exact parseContinuation_ok fh p
-  · rfl
+  obtain ⟨typ, flags, length, sid⟩ := fh
+  match typ with
+  | 0 => exact parseData_ok _ p
+  | 1 => exact parseHeaders_ok _ p
+  | 2 => exact parsePriority_ok _ p
+  | 3 => exact parseRST_ok _ p
+  | 4 => exact parseSettings_ok _ p
+  | 5 => exact parsePushPromise_ok _ p
+  | 6 => exact parsePing_ok _ p
+  | 7 => exact parseGoAway_ok _ p
+  | 8 => exact parseWindowUpdate_ok _ p
+  | 9 => exact parseContinuation_ok _ p
+  | _ + 10 => rfl
+
+theorem readFrame_ok (fr : Framer) (inp : Bytes) : Checked.readFrame fr inp = some (readFrame fr inp) := by
+  match inp with
+  | [] | [_] | [_, _] | [_, _, _] | [_, _, _, _] | [_, _, _, _, _] | [_, _, _, _, _, _] | [_, _, _, _, _, _, _]
+  | [_, _, _, _, _, _, _, _] => simp [Checked.readFrame, readFrame, parseHeader]
+  | l0 :: l1 :: l2 :: t :: f :: s0 :: s1 :: s2 :: s3 :: rest =>
+    have h9 : ¬ ((l0 :: l1 :: l2 :: t :: f :: s0 :: s1 :: s2 :: s3 :: rest).length < 9) := by simp
+    have hs : sliceTo (l0 :: l1 :: l2 :: t :: f :: s0 :: s1 :: s2 :: s3 :: rest) 9 =
+        some [l0, l1, l2, t, f, s0, s1, s2, s3] := by simp [sliceTo]
+    have hr : sliceFrom (l0 :: l1 :: l2 :: t :: f :: s0 :: s1 :: s2 :: s3 :: rest) 9 = some rest := by
+      simp [sliceFrom]
+    have hd : Checked.decodeHeader [l0, l1, l2, t, f, s0, s1, s2, s3] =
+        some ⟨t, f, l0 * 65536 + l1 * 256 + l2, low31 (be32 s0 s1 s2 s3)⟩ := by
+      simp [Checked.decodeHeader, idx, sliceFrom, u32]
+    generalize hfh : (⟨t, f, l0 * 65536 + l1 * 256 + l2, low31 (be32 s0 s1 s2 s3)⟩ : FH) = fh at hd
+    have hm : readFrame fr (l0 :: l1 :: l2 :: t :: f :: s0 :: s1 :: s2 :: s3 :: rest) =
+        (if fh.length > fr.maxReadSize then (.error .tooLarge, fr, rest)
+         else if rest.length < fh.length then (.error (if rest.isEmpty then .eof else .ueof), fr, [])
+         else ((acceptFrame fr fh (rest.take fh.length)).1, (acceptFrame fr fh (rest.take fh.length)).2,
+               rest.drop fh.length)) := by
+      simp only [readFrame, parseHeader, hfh]
+    rw [hm]
+    simp only [Checked.readFrame, h9, if_false, hs, hr, hd, Option.bind_eq_bind, Option.bind_some]
+    by_cases hbig : fh.length > fr.maxReadSize
+    · simp [hbig]
+    · by_cases hshort : rest.length < fh.length
+      · simp [hbig, hshort]
+      · have hst : sliceTo rest fh.length = some (rest.take fh.length) := by
+          simp only [sliceTo]; rw [if_pos (by omega)]
+        have hsf : sliceFrom rest fh.length = some (rest.drop fh.length) := by
+          simp only [sliceFrom]; rw [if_pos (by omega)]
+        simp only [hbig, hshort, if_false, hst, hsf, Option.bind_some, parseFrame_ok, acceptFrame, Option.pure_def]
+        cases parseFrame fh (rest.take fh.length) with
+        | error e => rfl
+        | ok fr0 =>
+          simp only []
+          cases checkFrameOrder fr fh with
+          | error e => rfl
+          | ok fr' => rfl
+
+theorem postCheck_ok (f : Frame) (h6 : ∀ fh p, f = .settings fh p → p.length % 6 = 0) :
+    Checked.postCheck f = some (postCheck f) := by
+  cases f with
+  | settings fh p =>
+    simp only [Checked.postCheck, postCheck]
+    split
+    · rfl
+    · have := h6 fh p rfl
+      exact validLoop_ok (p.length / 6) p (p.length + 1) (by omega) (by omega)
+  | _ => rfl
+
+/-- a SETTINGS frame returned by the parser has a payload of whole 6-byte entries -/
+theorem parseFrame_settings_len (fh fh' : FH) (p p' : Bytes) (h : parseFrame fh p = .ok (.settings fh' p')) :
+    p'.length % 6 = 0 := by
+  have hc : parseSettings fh p = .ok (.settings fh' p') ∨ fh.typ ≠ 4 := by
+    by_cases h4 : fh.typ = 4
+    · left; unfold parseFrame at h; simp only [h4] at h; exact h
+    · right; exact h4
+  rcases hc with hc | hc
+  · unfold parseSettings at hc
+    split at hc
+    · cases hc
+    · split at hc
+      · cases hc
+      · split at hc
+        · cases hc
+        · rename_i h6
+          have h6' : p.length % 6 = 0 := by simpa using h6
+          have : p' = p := by
+            split at hc
+            · split at hc
+              · cases hc
+              · injection hc with hc; injection hc with _ hp; exact hp.symm
+            · injection hc with hc; injection hc with _ hp; exact hp.symm
+          rw [this]; exact h6'
+  · -- other parsers never build a SETTINGS frame
+    exfalso
+    unfold parseFrame at h
+    split at h
+    all_goals first
+      | (exact hc (by assumption))
+      | (simp only [parseData, parseHeaders, parsePriority, parseRST, parsePushPromise, parsePing, parseGoAway,
+          parseWindowUpdate, parseContinuation] at h
+         repeat' split at h
+         all_goals first | cases h | (injection h with h; cases h))
+      | (injection h with h; cases h)
 
 end BfeVerif.C32
